@@ -619,6 +619,10 @@ impl Engine for Conv {
                 });
                 ev.nontrivial = close || outside || (op == CMP_SAME && ord == Ordering::Equal);
             }
+            CMP_F16 | CMP_BF16 if outs.is_empty() => {
+                // harness built without the library's f16 feature
+                ev.skipped = true;
+            }
             CMP_F32 | CMP_F64 | CMP_F16 | CMP_BF16 => {
                 let k = fk_of(op);
                 let fv = flt::decode(k, c.b as u64);
